@@ -44,6 +44,9 @@ func randSet(r *Rand, base *url.PercentEncodeSet) *url.PercentEncodeSet {
 	if r.P(10) {
 		s = url.NewPercentEncodeSet(int32(r.N(0x30)), uint(0x20+r.N(0x5f)))
 	}
+	if r.P(25) {
+		s = s.Set('%') // the set decides what happens to a '%' that starts no escape
+	}
 	return s
 }
 
